@@ -509,5 +509,7 @@ func Scenarios() []History {
 
 	hs = append(hs, Scenarios2()...)
 	hs = append(hs, ParamScenarios()...)
+	hs = append(hs, ReactScenarios()...)
+	hs = append(hs, StateStartScenarios()...)
 	return hs
 }
